@@ -117,6 +117,13 @@ def _rn_rev(x):
     return ("Z" + x[::-1]) if isinstance(x, str) else ("Z", x)
 
 
+def _rn_count():
+    """A 0-based numbering in order of first use (what `rename(Integerizer())` does): rename() evaluates f on the start symbol
+    first, so the new start symbol is 0 - a falsy name (seeded change C06-8)."""
+    ids = {}
+    return lambda x: ids.setdefault(x, len(ids))
+
+
 TRANSFORMS = {
     "trim": ("trim", lambda c: c.trim()),
     "trim[bottomup_only=True]": ("trim", lambda c: c.trim(bottomup_only=True)),
@@ -135,6 +142,7 @@ TRANSFORMS = {
     "rename[tuple]": ("rename", lambda c: c.rename(_rn_tuple)),
     "rename[rev]": ("rename", lambda c: c.rename(_rn_rev)),
     "renumber": ("renumber", lambda c: c.renumber()),
+    "rename[count]": ("rename", lambda c: c.rename(_rn_count())),
 }
 SINGLES = list(TRANSFORMS)
 
